@@ -112,12 +112,14 @@ func diagCmd(args []string) int {
 		}
 		nc := next()
 		idByPos := map[string]int{}
+		idsOnLine := map[string][]int{}
 		cs := make([]diagnostic.VerifConflict, nc)
 		for i := range cs {
 			id := next()
 			f, l, c, off := next(), next(), next(), next()
 			cs[i].Pos = token.Position{Filename: fileName(f, testFiles[f]), Line: l, Column: c, Offset: off}
-			idByPos[fmt.Sprintf("%d:%d", f, l)] = id
+			idByPos[fmt.Sprintf("%d:%d:%d", f, l, c)] = id
+			idsOnLine[fmt.Sprintf("%d:%d", f, l)] = append(idsOnLine[fmt.Sprintf("%d:%d", f, l)], id)
 			cs[i].Nil = readNodes(id, false)
 			cs[i].Nonnil = readNodes(id, true)
 			cs[i].Src = readPos()
@@ -129,10 +131,6 @@ func diagCmd(args []string) int {
 		}
 		var parts []string
 		for _, d := range ds {
-			id := -1
-			if v, ok := idByPos[fmt.Sprintf("%s:%d", canonPlace(d.Pos.Filename), d.Pos.Line)]; ok {
-				id = v
-			}
 			// the last flow step of the message (the dereference point), independent of the reported position
 			flow := "-"
 			body := d.Message
@@ -146,6 +144,14 @@ func diagCmd(args []string) int {
 						flow = canonPlace(m[1])
 					}
 				}
+			}
+			// which conflict the diagnostic is: the one on its line; when a line has several (the generator gives each of
+			// them a dereference point of its own), the one whose dereference point is the last flow step
+			id := -1
+			if ids := idsOnLine[fmt.Sprintf("%s:%d", canonPlace(d.Pos.Filename), d.Pos.Line)]; len(ids) == 1 {
+				id = ids[0]
+			} else if v, ok := idByPos[flow]; ok && len(ids) > 1 {
+				id = v
 			}
 			n, places := 0, []string{}
 			if m := placesRe.FindStringSubmatch(d.Message); m != nil {
